@@ -52,7 +52,7 @@ Step(e) ==
          LET r == [name |-> e.v.name, savings |-> e.v.savings, yo |-> Yo(e.v.yo), from |-> e.v.from, to |-> e.v.to] IN
          /\ Check(e.bytes = EncRecurrence(r), "recurrence_writer_emits_documented_encoding")
          /\ Check(~Has(e, "rexc") /\ Has(e, "back") /\ e.eq /\ e.back.name = r.name /\ e.back.savings = r.savings
-                  /\ Yo(e.back.yo) = r.yo /\ e.back.to = r.to /\ (r.from > 0 => e.back.from = r.from), "recurrence_read_back_equal")
+                  /\ Yo(e.back.yo) = r.yo /\ e.back.to = r.to /\ (r.from # 0 => e.back.from = r.from), "recurrence_read_back_equal")   \* (-1: from the start of time)
          /\ (Has(e, "consumed") => Check(e.consumed = Len(e.bytes), "recurrence_reader_consumes_exactly_the_bytes_written"))
     [] e.op = "zone" ->
          LET z == Zone(e.v) enc == EncZone(z) d == DecZone(enc, 1, e.pool) IN
